@@ -583,13 +583,17 @@ class ScriptedSocket:
 
 
 class Execution:
-    __slots__ = ("node", "sched", "socks", "queue")
+    __slots__ = ("node", "sched", "socks", "queue", "stale")
 
-    def __init__(self, node, sched, socks, queue):
+    def __init__(self, node, sched, socks, queue, stale=()):
         self.node = node
         self.sched = sched
         self.socks = socks
         self.queue = queue
+        self.stale = list(stale)  # what the node's queue held before any of its peers sent anything
+
+
+STALE_SENTINEL = (0, b"inv", b"\x00queued-by-an-earlier-node")
 
 
 _LOCK_TYPES = (type(threading.Lock()), type(threading.RLock()))
@@ -601,7 +605,20 @@ def run_node(p2p, peer_messages, schedule=(), order=None, preempt=None, lines=Fa
     schedule by "run the first thread of `order` that can run", i.e. a serial execution in that order. `preempt` /
     `lines`: see Scheduler."""
     n = len(peer_messages)
+    # an earlier node of the same process that has queued a message (what its receive loop does with an unhandled one):
+    # the node under test is a new node and starts with a queue of its own
+    earlier = p2p.Node()
+    try:
+        earlier._msg_queue.append(STALE_SENTINEL)
+    except Exception:  # noqa: BLE001 - a queue of another type: nothing to prime
+        pass
     node = p2p.Node()
+    try:
+        stale = list(node._msg_queue)
+        if stale:
+            node._msg_queue.clear()  # reported once (Execution.stale); the run itself starts clean
+    except Exception:  # noqa: BLE001
+        stale = []
     sched = Scheduler(n, schedule, order, preempt, p2p.__file__ if lines else None)
     queue = ParkDeque(sched, node._msg_queue)
     node._msg_queue = queue
@@ -627,7 +644,7 @@ def run_node(p2p, peer_messages, schedule=(), order=None, preempt=None, lines=Fa
     finally:
         for name, val in module_locks.items():
             setattr(p2p, name, val)
-    return Execution(node, sched, socks, queue)
+    return Execution(node, sched, socks, queue, stale)
 
 
 # --------------------------------------------------------------------------- schedule enumeration + self-check
